@@ -18,6 +18,8 @@ type UnitResult struct {
 	Notes       []string
 	Abstracted  map[string]int
 	ExtUsed     map[string]int
+	Used        map[string]bool // callee contracts relied upon
+	Dependency  bool            // verified because a unit of the property relies on its contract
 	Assumed     []string
 	Serves      []string
 	GenTime     float64
@@ -76,6 +78,7 @@ func verifyUnit(p *Prog, fi *FuncInfo, split *int64, conds []ast.Expr, mask int)
 		res.Notes = x.notes
 		res.Abstracted = x.abstract
 		res.ExtUsed = x.extUsed
+		res.Used = x.used
 		res.Assumed = x.assumed
 		if r := recover(); r != nil {
 			if u, ok := r.(unsupportedErr); ok {
